@@ -185,6 +185,43 @@ pub fn for_each_source(t: &Tree, sc: &Scratch, mode: Mode, st: &mut SrcStats, f:
             }
         }
     }
+    // (2b) a zip in which every file appears twice, once under its `./`-prefixed name and once under
+    // its plain name (two spellings of one path, as produced by adding to an archive with another
+    // tool): still an archive of the same tree
+    for &dirs in &flavours {
+        let master = masters.iter_mut().flatten().next().unwrap();
+        let ml = mk::members(t, dirs, false);
+        let order = mk::sorted_order(t, &ml);
+        let built: std::io::Result<Vec<u8>> = (|| {
+            let mut w = zip::ZipWriter::new(std::io::Cursor::new(Vec::with_capacity(1024)));
+            for &m in &order {
+                if let mk::M::File(i) = m {
+                    let f = master.by_index_raw(i).map_err(|e| std::io::Error::new(std::io::ErrorKind::Other, e.to_string()))?;
+                    w.raw_copy_file_rename(f, mk::member_path(t, m, true)).map_err(|e| std::io::Error::new(std::io::ErrorKind::Other, e.to_string()))?;
+                }
+            }
+            for &m in &order {
+                let name = mk::member_path(t, m, false);
+                match m {
+                    mk::M::File(i) => {
+                        let f = master.by_index_raw(i).map_err(|e| std::io::Error::new(std::io::ErrorKind::Other, e.to_string()))?;
+                        w.raw_copy_file_rename(f, name).map_err(|e| std::io::Error::new(std::io::ErrorKind::Other, e.to_string()))?;
+                    }
+                    _ => w.add_directory(name, zip::write::FileOptions::default()).map_err(|e| std::io::Error::new(std::io::ErrorKind::Other, e.to_string()))?,
+                }
+            }
+            Ok(w.finish().map_err(|e| std::io::Error::new(std::io::ErrorKind::Other, e.to_string()))?.into_inner())
+        })();
+        let bytes = built.map_err(mach("zip with two spellings"))?;
+        let v = Variant { kind: "zip", dirs, prefix: false, deflate: false, order: "sorted".into(), backing: "mem", writer: "raw-copy, every file under `./name` and `name`" };
+        match Zip::from_bytes(&bytes[..]) {
+            Ok(z) => {
+                st.zip_mem += 1;
+                f(&z, &v, None)
+            }
+            Err(e) => st.open_failures.push((v, e.to_string())),
+        }
+    }
     // the plain writer (start_file + write), in memory and file-backed (`Zip::open`, SyncFile):
     // deflated always, stored too in Full mode
     let methods: &[bool] = if mode == Mode::Full { &[true, false] } else { &[true] };
@@ -235,6 +272,37 @@ pub fn for_each_source(t: &Tree, sc: &Scratch, mode: Mode, st: &mut SrcStats, f:
                     Err(e) => st.open_failures.push((v, e.to_string())),
                 }
             }
+        }
+    }
+    // (3b) an archive that was *updated* (`tar -r` / `tar -u`): an older version of every file member
+    // (other contents), and every directory member a second time, precede the current members; the
+    // archive still is an archive of the same tree (the later member wins)
+    for &dirs in &flavours {
+        let ml = mk::members(t, dirs, false);
+        let (blobs, _) = mk::tar_blobs(t, &ml, false);
+        let order = mk::sorted_order(t, &ml);
+        let mut bytes = Vec::new();
+        for &m in &order {
+            let name = mk::member_path(t, m, false);
+            let (b, _) = match m {
+                mk::M::File(i) => {
+                    let mut old = b"superseded ".to_vec();
+                    old.extend_from_slice(&t.files[i].content[..t.files[i].content.len().min(7)]);
+                    mk::tar_member(&name, false, &old)
+                }
+                _ => mk::tar_member(&name, true, &[]),
+            };
+            bytes.extend_from_slice(&b);
+        }
+        let cur = mk::tar_concat(&blobs, &order);
+        bytes.extend_from_slice(&cur);
+        let v = Variant { kind: "tar", dirs, prefix: false, deflate: false, order: "sorted".into(), backing: "mem", writer: "manual, updated archive (older members first)" };
+        match Tar::from_bytes(&bytes[..]) {
+            Ok(z) => {
+                st.tar_mem += 1;
+                f(&z, &v, None)
+            }
+            Err(e) => st.open_failures.push((v, e.to_string())),
         }
     }
     {
